@@ -14,6 +14,8 @@ import loopx, proto, vlib
 
 def run(c):
     loopx.run_suite(c, 'C03')
+    # option receive-only (shadow mode still captures the application's changes; nothing is stored)
+    loopx.run_extra(c, 'C03', 'recvonly')
     # protocol level with the tomb sweeper configured (stale-marker rule of Merge): an LS step may only
     # replace a stored version by one that wins against it
     thorough = c.tier == 'thorough'
